@@ -704,7 +704,13 @@ def expand_new_tables(tree, modname, reference, qualnames_fn, getattr_rewrite=No
             else:
                 return None
             if not all(stable(x) for r in rows for x in r):
-                return None
+                # an inline literal of plain local names and constants: the rows are evaluated once before the loop, which
+                # is the same as reading the names in the passes if no pass rebinds them
+                if named or not isinstance(it, (ast.Tuple, ast.List)) or not all(isinstance(x, (ast.Name, ast.Constant)) for r in rows for x in r):
+                    return None
+                row_names = {x.id for r in rows for x in r if isinstance(x, ast.Name)}
+                if any(isinstance(n, ast.Name) and n.id in row_names and isinstance(n.ctx, (ast.Store, ast.Del)) for b_ in st.body + st.orelse for n in ast.walk(b_)):
+                    return None
 
             tg = st.target
             if isinstance(tg, ast.Name):
